@@ -461,7 +461,18 @@ func checkC13(c *Ctx) {
 					return ok && core.CallOf(cv).Is(byPeer) && reachesParam(cv.Call.Args[0], leave, paramIndexOfType(leave, "uint64"))
 				})
 			}
-			topic := complitField(a.Arg(0), "Topic")
+			readsField := func(v ssa.Value, typ, field string) bool {
+				return depReaches(v, func(x ssa.Value) bool {
+					fa, ok := x.(*ssa.FieldAddr)
+					return ok && fieldNameOf(fa.X.Type(), fa.Field) == field && (isNamed(fa.X.Type(), "wasp/api", typ) || isNamed(fa.X.Type(), pkgPacket, typ))
+				})
+			}
+			// the publish appended: a literal built here, or by a constructor called here (willPublish(mountPoint, lwt))
+			built := c.builtObject(a.Arg(0))
+			var topic ssa.Value
+			if built != nil {
+				topic = built.field("Topic")
+			}
 			if topic == nil {
 				// appended as is: raw will
 				bad = "the stored will is appended as it is: its topic is the raw CONNECT will topic, outside the session's mount point"
@@ -472,21 +483,21 @@ func checkC13(c *Ctx) {
 				bad = "the will topic is not qualified with sessions.PrefixMountPoint"
 				continue
 			}
-			mp, tp := pc.Call.Args[0], pc.Call.Args[1]
-			if !stringsContains(core.Term(mp), ".MountPoint") || !fromByPeer(mp) {
+			mp, tp := built.subst(pc.Call.Args[0]), built.subst(pc.Call.Args[1])
+			if !readsField(mp, "SessionMetadatas", "MountPoint") || !fromByPeer(mp) {
 				bad = "the mount point used for the will is not the lost session record's MountPoint"
 			}
-			if !stringsContains(core.Term(tp), ".LWT") || !stringsContains(core.Term(tp), ".Topic") || !fromByPeer(tp) {
+			if !readsField(tp, "SessionMetadatas", "LWT") || !readsField(tp, "Publish", "Topic") || !fromByPeer(tp) {
 				bad = "the topic qualified is not the lost session's will topic"
 			}
-			payload := complitField(a.Arg(0), "Payload")
-			if payload == nil || !stringsContains(core.Term(payload), ".LWT") {
+			payload := built.field("Payload")
+			if payload == nil || !readsField(payload, "SessionMetadatas", "LWT") {
 				bad = "the will payload is not carried over"
 			}
 			// guarded by LWT != nil
 			guarded := false
 			for _, cc := range controllingConds(a.Instr.Block(), nil) {
-				if stringsContains(core.Term(cc.cond), ".LWT") {
+				if readsField(cc.cond, "SessionMetadatas", "LWT") {
 					guarded = true
 				}
 			}
